@@ -210,7 +210,12 @@ Tree* splay_erase(const Key& k, Tree*& t, const Compare& cmp)
         else
         {
             Tree* x = splay(k, t->left, cmp);
-            x->right = t->right;
+            // with duplicate keys x may still have a right subtree (of keys
+            // equal to k): attach t->right to the right-most node
+            Tree* y = x;
+            while (y->right != nullptr)
+                y = y->right;
+            y->right = t->right;
             t = x;
         }
         return r;
